@@ -7,7 +7,7 @@ TB = "rustc nightly 1.97 MIR of the dev profile is faithful (same semantics as t
 
 CLAIMED = {
  "C01": ("T5 untrusted-input dataflow over MIR: callee panic preconditions (derived from callee MIR, substituted at call sites) that depend on numbers parsed from the text must be excluded by dominating, still-valid guards in from_str; T3 guard for m % r",
-         "Clause-level structural decision for ALL input strings at once: no panic site whose condition depends on a parsed number is reachable without a dominating guard on that number; stored degrees are guarded by m % r == 0; set() writes both directions under the pairing guard. The print/parse round-trip identities are value-level and NOT decided.", "4/C01"),
+         "Clause-level structural decision for ALL input strings at once: no panic site whose condition depends on a parsed number is reachable without a dominating guard on that number; stored degrees are guarded by m % r == 0; set() writes both directions under the pairing guard; printer and parser agree on ranges, emission/consumption condition and the dimension default. The print/parse round-trip identities themselves are value-level and NOT decided.", "4/C01"),
  "C04": ("T3 guard-dominates-effect (degree comparison between self and other dominates every extension of a morphism; degrees_match dominates every pair queued in fold), T2 required dependence, T4 range/constant slots (inclusive index ranges, base chamber 1, candidate range 2..=size)",
          "Clause-level structural decision: necessary conditions of degree preservation, of is_minimal/minimal_image agreeing on one relation, and of range completeness hold on every path. Minimality/uniqueness of the quotient and exactness of the automorphism list are NOT decided.", "4/C04"),
  "C11": ("T4 constant slot (subgroup scans start at canon(base row 0)), T2 required dependence (representatives read table.get), T9 construct-through (compact() on every return; who-may-call CosetTable::set), T3 guards in scan_and_connect",
@@ -68,7 +68,7 @@ def main():
             "engine": "mirfacts+sa",
             "level_claimed": {"category": "other", "text": text, "design_ref": "DESIGN.md section " + ref},
             "level_note": TB,
-            "technique": "static analysis: " + tech,
+            "technique": "static analysis: " + tech + "; plus, for the property's anchor files, the table-driven loop-structure rule T10 (must-reach calls / early exits / carried state per loop), the stale-element lint T11 and sibling cross-checks (DESIGN 11.7)",
         })
     na = []
     for p in props:
